@@ -14,6 +14,8 @@ import json
 import warnings
 from fractions import Fraction
 
+import pickle
+
 import numpy as np
 
 from . import core
@@ -174,9 +176,23 @@ def real_round_trips(seed, count):
             except Exception as exc:  # noqa: BLE001
                 fails.append(f"setting the volume of a droplet of radius 0 raised {type(exc).__name__}")
             d = cls(pos, r)
+            if k % 4 == 1:
+                d = pickle.loads(pickle.dumps(d))      # droplets travel through pickle to and from worker processes
+            elif k % 4 == 2:
+                d = d.copy()
+            elif k % 4 == 3:
+                d = cls.from_data(d.data.copy())
             d.volume = v * 1.5
             if abs(d.volume - v * 1.5) > 1e-14 * v:
                 fails.append("setting the volume and reading it back")
+            # a change of the volume far below any plotting resolution is still a change (slow growth / ripening)
+            for delta in (3e-10, -7e-10, 1e-12):
+                v1 = d.volume * (1 + delta)
+                d.volume = v1
+                if abs(d.volume - v1) > 1e-13 * v1 or abs(d.radius - S.radius_from_volume(v1, dim)) > 1e-13 * r:   # cube roots: a few ulp times |ln x|
+                    fails.append(f"setting the volume to a value {delta:g} (relative) away and reading it back")
+            if abs(S.surface_from_radius(d.radius, dim) - d.surface_area) > 1e-14 * abs(d.surface_area) and dim > 1:
+                fails.append("surface area does not follow the volume that was set")
             d.radius = r
             b = d.bbox
             bb = np.asarray(b.bounds)
